@@ -1,6 +1,7 @@
 package lint
 
 import (
+	"go/token"
 	"strings"
 
 	"golang.org/x/tools/go/ssa"
@@ -77,4 +78,101 @@ func ruleSnapShadow() *Rule {
 			return []Obligation{ob}
 		},
 	}
+}
+
+// ruleBoundaryMono: BOUNDARY-MONO.
+//
+// takeSnapshot reads its label, releases the mutex for the state machine, and comes back to a node on which a received
+// snapshot with a greater index may have been installed. It must then leave the boundary alone: moving
+// lastIncludedIndex BACK and compacting a log that already starts beyond the label ends in a fatal error (or in a
+// boundary that no longer describes the log). The test that prevents it compares the LABEL — not lastApplied, which has
+// moved on with the installation — with the boundary.
+func ruleBoundaryMono() *Rule {
+	const id = "BOUNDARY-MONO"
+	return &Rule{
+		ID: id,
+		Text: "In takeSnapshot every store to Raft.lastIncludedIndex writes a value V on a path on which, in the same critical section, V > r.lastIncludedIndex has been established (the arm of a comparison of that very value with the boundary).",
+		Floor: 1,
+		Run: func(p *Program) []Obligation {
+			fn := p.Func("(*Raft).takeSnapshot")
+			fld := p.Field("Raft.lastIncludedIndex")
+			if fn == nil || fld == nil {
+				return missing(id, "(*Raft).takeSnapshot / Raft.lastIncludedIndex")
+			}
+			fr := NewRootFrame(fn)
+			var out []Obligation
+			for _, b := range fn.Blocks {
+				for _, in := range b.Instrs {
+					st, f := storeField(in)
+					if st == nil || f != fld {
+						continue
+					}
+					ob := Obligation{Rule: id, Construct: "store Raft.lastIncludedIndex in (*Raft).takeSnapshot", Pos: p.InstrPos(in)}
+					v := strings.TrimPrefix(p.Canon(fr, st.Val).S, "@")
+					guarded := false
+					for _, bb := range fn.Blocks {
+						iff, ok := bb.Instrs[len(bb.Instrs)-1].(*ssa.If)
+						if !ok {
+							continue
+						}
+						bo, ok := iff.Cond.(*ssa.BinOp)
+						if !ok {
+							continue
+						}
+						x := strings.TrimPrefix(p.Canon(fr, bo.X).S, "@")
+						y := strings.TrimPrefix(p.Canon(fr, bo.Y).S, "@")
+						arm := -1 // successor on which V > boundary
+						switch {
+						case x == v && y == "r.lastIncludedIndex" && (bo.Op == token.LEQ):
+							arm = 1
+						case x == v && y == "r.lastIncludedIndex" && (bo.Op == token.GTR):
+							arm = 0
+						case y == v && x == "r.lastIncludedIndex" && (bo.Op == token.GEQ):
+							arm = 1
+						case y == v && x == "r.lastIncludedIndex" && (bo.Op == token.LSS):
+							arm = 0
+						}
+						if arm < 0 {
+							continue
+						}
+						// the comparison is made after the last acquisition of the mutex before the store, and its arm dominates the store
+						if len(bb.Succs[arm].Preds) == 1 && bb.Succs[arm].Dominates(b) && !lockBetween(bb, b) {
+							guarded = true
+						}
+					}
+					if guarded {
+						ob.Verdict, ob.Detail = Discharged, "stored only where "+v+" > r.lastIncludedIndex was established in the same critical section"
+					} else {
+						ob.Verdict = Violated
+						ob.Detail = "the boundary is set to " + v + " without a comparison of that value with r.lastIncludedIndex since the mutex was re-acquired: a snapshot with a greater index installed while the state machine was writing this one is overtaken BACKWARDS — " +
+							"lastIncludedIndex decreases and Log.Compact is asked for an index the log no longer holds (fatal)"
+					}
+					out = append(out, ob)
+				}
+			}
+			if len(out) == 0 {
+				return missing(id, "a store to Raft.lastIncludedIndex in takeSnapshot")
+			}
+			return out
+		},
+	}
+}
+
+// lockBetween: is the node mutex (re-)acquired in a block strictly between from and to (from dominates to)?
+func lockBetween(from, to *ssa.BasicBlock) bool {
+	fn := from.Parent()
+	for _, b := range fn.Blocks {
+		if b == from || !from.Dominates(b) || !(b == to || blockReaches(b, to)) {
+			continue
+		}
+		for _, in := range b.Instrs {
+			if ci, ok := in.(*ssa.Call); ok {
+				if op, recv := isMutexOp(ci.Common()); op == "Mutex.Lock" && isNodeMutex(recv) {
+					// an acquisition in `to` itself counts only if it precedes nothing we care about; be conservative
+					return true
+				}
+			}
+		}
+	}
+	return false
 }
